@@ -177,3 +177,20 @@ func VerifPublishingIntervalLimits() (float64, float64) {
 
 // VerifRevisePublishingInterval exposes revisePublishingInterval.
 func VerifRevisePublishingInterval(ms float64) float64 { return revisePublishingInterval(ms) }
+
+// VerifSecurityDecision evaluates the configuration's channel security decisions for a policy URI and mode:
+// enabled = sessions may be used over such a channel; status = 0 if an OpenSecureChannel request is accepted,
+// else the status code it is refused with.
+func (s *Server) VerifSecurityDecision(policyURI string, mode ua.MessageSecurityMode) (enabled bool, status uint32) {
+	enabled = s.cfg.securityEnabled(policyURI, mode)
+	if err := s.cfg.acceptSecurity(policyURI, mode); err != nil {
+		if code, ok := err.(ua.StatusCode); ok {
+			return enabled, uint32(code)
+		}
+		return enabled, 0xFFFFFFFF
+	}
+	return enabled, 0
+}
+
+// VerifDiscoveryService exposes the dispatcher's discovery predicate.
+func VerifDiscoveryService(typeID uint16) bool { return discoveryService(typeID) }
